@@ -21,6 +21,8 @@ type UniImpl struct {
 	LoadHistory func(prog *Program, initial []string, steps [][]string) (snap *USnap, objectsStable bool, inputs []string, err error)
 	// LoadHistoryLookups: the same with hand lookups (Universe.Type of (package, name)) made right before incremental step i
 	LoadHistoryLookups func(prog *Program, initial []string, steps [][]string, lookups [][][2]string) (snap *USnap, objectsStable bool, inputs []string, err error)
+	// RequestTwice asks the same loader for package pkg twice, ignoring the first answer, and returns both errors
+	RequestTwice func(prog *Program, pkg string) (first, second error)
 }
 
 func progLines(variant string, prog *Program, facts []string, requested []string) []string {
@@ -350,6 +352,15 @@ func LoadingProperty(impl UniImpl) Property {
 			case "src":
 				prog.Pkgs = append(prog.Pkgs, &ProgPkg{Path: Unhex(f[2]), Name: Unhex(f[3]), File: Unhex(f[4]), Imports: UnhexList(f[5]), Source: Unhex(f[6])})
 				prog.Module = ModuleOfPath(prog.Pkgs[0].Path)
+			case "srcx":
+				for _, p := range prog.Pkgs {
+					if p.Path == Unhex(f[2]) {
+						if p.Extra == nil {
+							p.Extra = map[string]string{}
+						}
+						p.Extra[Unhex(f[3])] = Unhex(f[4])
+					}
+				}
 			case "load":
 				initial = UnhexList(f[2])
 				loadIdx = append(loadIdx, i)
@@ -362,6 +373,18 @@ func LoadingProperty(impl UniImpl) Property {
 				inputsIdx = i
 			case "expecterror":
 				expectErr = true
+			}
+		}
+		for _, l := range lines {
+			if f := Fields(l); f[1] == "retry" && impl.RequestTwice != nil {
+				// asking again for a package that does not parse must fail again
+				e1, e2 := impl.RequestTwice(prog, Unhex(f[2]))
+				if e1 == nil {
+					fails = append(fails, Failure{"bad-package-no-error", fmt.Sprintf("requesting %s (a file of it does not parse) returned no error", Unhex(f[2]))})
+				} else if e2 == nil {
+					fails = append(fails, Failure{"bad-package-no-error-on-retry", fmt.Sprintf("requesting %s again after the error %q returned no error: the loader kept the files it had parsed before the broken one", Unhex(f[2]), Trunc(e1.Error(), 120))})
+				}
+				return outs, fails
 			}
 		}
 		if expectErr {
@@ -532,6 +555,16 @@ func LoadingProperty(impl UniImpl) Property {
 					}
 					_ = badReq
 					c.Case(ls2, Meta{Nontrivial: true, NoModel: true, Features: []string{"bad-requested-package", "bad:" + feat}})
+					if i%8 == 0 {
+						// a package of two files, the second of which does not parse, requested twice
+						bp := &ProgPkg{Path: prog.Module + "/zhalf", Name: "zhalf", File: "a.go", Source: "package zhalf\n\ntype A int\n",
+							Extra: map[string]string{"b.go": "package zhalf\n\ntype B int\n\nfunc (\n"}}
+						ls3 := []string{Line("uni", "reset", variant),
+							Line("uni", "src", Hex(bp.Path), Hex(bp.Name), Hex(bp.File), HexList(nil), Hex(bp.Source)),
+							Line("uni", "srcx", Hex(bp.Path), Hex("b.go"), Hex(bp.Extra["b.go"])),
+							Line("uni", "expecterror"), Line("uni", "retry", Hex(bp.Path))}
+						c.Case(ls3, Meta{Nontrivial: true, NoModel: true, Features: []string{"bad-requested-package", "bad:second-file-broken-requested-twice"}})
+					}
 				}
 			}
 		},
